@@ -16,7 +16,7 @@ PHASES = ('request', 'endpoint', 'render')
 HTTP_CLASSES = sorted(set(cerrors.__all__) | set(['NotFound', 'InternalServerError']))
 HTTP_CLASSES = [n for n in HTTP_CLASSES if isinstance(getattr(cerrors, n, None), type)
                 and issubclass(getattr(cerrors, n), cerrors.HTTPException)]
-VALUES = ['resp', 'resp', 'str', 'none', 'number', 'dict', 'bytes', 'list']
+VALUES = ['resp', 'resp', 'baseresp', 'str', 'none', 'number', 'dict', 'bytes', 'list']
 MSGS = {'plain': 'injected failure', 'nonascii': 'défaillance ☃ 中文', 'huge': 'x' * (1 << 20),
         'unprintable': 'ctl\x00\x01\x1b[31m\x7f\udcff', 'braces': '{0} {x} %s %(y)s </pre><script>', 'empty': ''}
 HANDLERS = ['default', 'default', 'debug', 'reraise', 're_raises', 're_other']
@@ -151,7 +151,7 @@ class C08(Check):
                  'msg': msg, 'breaking': rng.random() < 0.6}
         else:
             f = {'beh': 'return' if is_leaf else rng.choice(['return_early', 'replace_after']), 'value': rng.choice(VALUES)}
-            if f['value'] == 'resp':
+            if f['value'] in ('resp', 'baseresp'):
                 f['status'] = rng.choice([200, 200, 201, 202, 302, 404, 500, 503])
         return f
 
